@@ -25,8 +25,8 @@ Import ListNotations.
 Inductive cop := OpM | OpI | OpD | OpN | OpS | OpH | OpP | OpEQ | OpX.
 Definition cigar := list (cop * nat).
 
-(* The rules found defective by the correspondence check, each switchable to its repair.  All five have been repaired
-   in /repo (fix: commits 8735279, 7e88262, ad24a2d, 064e8b6, 9cec2b4); `original_rules` keeps the code as it was, for
+(* The rules found defective by the correspondence check, each switchable to its repair.  All six have been repaired
+   in /repo (fix: commits 8735279, 7e88262, ad24a2d, 064e8b6, 9cec2b4, 22e7aa7); `original_rules` keeps the code as it was, for
    the `_refuted` witness theorems; `current_rules` is the code as it is now (= repaired_rules).
      r_skip_consumed   cigar_prefix_length at a reference skip (N): false = the code as it was (reports the *requested*
                        number of reference bases), true = the code now (reports the bases actually consumed,
@@ -45,13 +45,13 @@ Definition cigar := list (cop * nat).
                        from the last primary one, i.e. one mate of every FR pair), true = the code now (the strand
                        filter applies to supplementary alignments only) *)
 (*   r_ins_flank_at_ins  like r_ins_left_flank, but for an aligned block that BEGINS with an insertion operation (read
-                       starting inside an insertion, or N followed by I): false = the code (queues the insertion variant
+                       starting inside an insertion, or N followed by I): false = the code as it was (queues the insertion variant
                        at that I operation; a partial insertion does not match, the empty REF allele is reported),
-                       true = repaired (skips it).  NOT repaired in /repo yet. *)
+                       true = the code now (skips it; fix: 22e7aa7). *)
 Record rules := mkRules { r_skip_consumed : bool; r_ins_left_flank : bool; r_pair_keep_mate : bool;
                           r_ins_span : bool; r_distance : bool; r_ins_flank_at_ins : bool }.
 Definition original_rules := mkRules false false false false false false.
-Definition current_rules := mkRules true true true true true false.
+Definition current_rules := mkRules true true true true true true.
 Definition repaired_rules := mkRules true true true true true true.
 (* all rules repaired except number k *)
 Definition all_but (k : nat) : rules :=
